@@ -125,6 +125,8 @@ def run_prog(case, res, stats):
                     assigned_zero.update(progen._target_sigs(st[2]))    # a zero-width target drives nothing
             elif st[0] == "if":
                 for c, b in st[1]:
+                    if b and b[-1][0] == "abort":
+                        continue          # a dropped branch assigns nothing
                     walk_stmts(b)
                 if st[2]:
                     walk_stmts(st[2])
